@@ -22,24 +22,26 @@ def _stream(text, ts, timeout, depth, scorer, rel=1.0):
 
 
 def obs_entry(case):
-    ts = datetime(*case["ts"])
-    gold = C.parse_nb_string(case["gold"])
+    """case["entries"]: list of (text, ts, gold string) handed to the builder in ONE call."""
+    ents = case["entries"]
+    exp = []
     if case["builder"] == "make_partial_rule_dataset":
-        entry = C.TimeParseEntry(text=case["text"], ts=ts, gold=gold)
-        samples = list(C.make_partial_rule_dataset([entry], qa.DummyScorer(), timeout=0, max_stack_depth=case["depth"]))
-        cands = _stream(case["text"], ts, 0, case["depth"], qa.DummyScorer())
+        entries = [C.TimeParseEntry(text=t, ts=datetime(*ts), gold=C.parse_nb_string(g)) for t, ts, g in ents]
+        samples = list(C.make_partial_rule_dataset(entries, qa.DummyScorer(), timeout=0, max_stack_depth=case["depth"]))
         sm = [{"X": list(x), "y": 1 if y else 0} for x, y in samples]
+        for t, ts, g in ents:
+            exp.append({"cands": _stream(t, datetime(*ts), 0, case["depth"], qa.DummyScorer()), "gold": qa.val_json(C.parse_nb_string(g))})
     else:
         try:
-            import tqdm as _tq  # noqa: F401
-            Xs, ys = C.run_corpus([(case["gold"], ts.strftime("%Y-%m-%dT%H:%M"), [case["text"]])])
+            Xs, ys = C.run_corpus([(g, datetime(*ts).strftime("%Y-%m-%dT%H:%M"), [t]) for t, ts, g in ents])
         except Exception:  # noqa: BLE001
-            # run_corpus is a strict checker: by contract it raises when the target is never produced
+            # run_corpus is a strict checker: by contract it raises when a target is never produced
             # (incl. ValueError from max() when a text yields no candidate at all); nothing is emitted then
             return []
-        cands = _stream(case["text"], ts, 0, 0, qa.DummyScorer())
         sm = [{"X": list(x), "y": 1 if y else 0} for x, y in zip(Xs, ys)]
-    return {"kind": "samples", "builder": case["builder"], "cands": cands, "gold": qa.val_json(gold), "samples": sm, "before": 0, "after": 0, "k": 0}
+        for t, ts, g in ents:
+            exp.append({"cands": _stream(t, datetime(*ts), 0, 0, qa.DummyScorer()), "gold": qa.val_json(C.parse_nb_string(g))})
+    return {"kind": "samples", "builder": case["builder"], "entries": exp, "samples": sm, "before": 0, "after": 0, "k": 0}
 
 
 def obs_mono(case):
@@ -58,7 +60,7 @@ def obs_mono(case):
         b, a = 0, 0
     else:
         b, a = (0, 1) if s1 > s0 else (1, 0)
-    return {"kind": "mono", "builder": "train", "cands": [], "gold": {"k": "F"}, "samples": [], "before": b, "after": a, "k": case["k"]}
+    return {"kind": "mono", "builder": "train", "entries": [], "samples": [], "before": b, "after": a, "k": case["k"]}
 
 
 STAGES = {"dataset-builders": (obs_entry, "TrainingTrace"), "duplication-monotone": (obs_mono, "TrainingTrace")}
@@ -93,14 +95,30 @@ def run(ctx):
                 ("8pm", ts0, "Time[]{X-X-X 08:00 (X/X)}"), ("xyzzy", ts0, "Time[]{X-X-X 08:00 (X/X)}"),
                 ("5.3.2021 for 3 days", ts0, "Interval[]{2021-03-05 X:X (X/X) - 2021-03-08 X:X (X/X)}")]
     cases = []
+    from .. import engine
     for text, ts, gold in entries:
-        cases.append({"text": text, "ts": ts, "gold": gold, "builder": "make_partial_rule_dataset", "depth": 10})
-        from .. import engine
+        cases.append({"entries": [(text, ts, gold)], "builder": "make_partial_rule_dataset", "depth": 10})
         nm, ns = engine.text_size(text)
         if nm <= 9 and ns <= 30:
-            cases.append({"text": text, "ts": ts, "gold": gold, "builder": "run_corpus", "depth": 0})
+            cases.append({"entries": [(text, ts, gold)], "builder": "run_corpus", "depth": 0})
+    # batches in ONE call: shuffled entries, the same text and reference time under different gold annotations,
+    # exact duplicates (a per-call cache must not confuse them)
+    small = [e for e in entries if engine.text_size(e[0])[0] <= 9 and engine.text_size(e[0])[1] <= 30]
+    for b in range(6 if ctx.quick else 40):
+        batch = rnd.sample(entries, min(len(entries), rnd.randint(3, 8)))
+        t, ts, g = rnd.choice(batch)
+        other = rnd.choice([x[2] for x in entries if x[2] != g])
+        batch += [(t, ts, other), (t, ts, g)]
+        rnd.shuffle(batch)
+        cases.append({"entries": batch, "builder": "make_partial_rule_dataset", "depth": 10})
+        sb = rnd.sample(small, min(len(small), 4))
+        cases.append({"entries": sb + [sb[0]], "builder": "run_corpus", "depth": 0})
+    twins = [("3 days", ts0, "Duration[]{3 days}"), ("3 days", ts0, "Duration[]{4 days}"), ("3 days", ts0, "Duration[]{3 days}"),
+             ("8pm", ts0, "Time[]{X-X-X 08:00 (X/X)}"), ("8pm", ts0, "Time[]{X-X-X 20:00 (X/X)}")]
+    cases.append({"entries": twins, "builder": "make_partial_rule_dataset", "depth": 10})
+    cases.append({"entries": list(reversed(twins)), "builder": "make_partial_rule_dataset", "depth": 10})
     core.run_stage(ctx, "dataset-builders", cases, obs_entry, "TrainingTrace", sig_keys=("builder",),
-                   nontrivial=lambda c: (c["text"], c["gold"], c["builder"]))
+                   nontrivial=lambda c: (json.dumps(c["entries"]), c["builder"]))
     # duplication monotonicity
     docs_all = [d for n in (1, 2, 3) for d in itertools.product("ab", repeat=n)]
     cases = []
